@@ -416,6 +416,23 @@ pub fn units(prop: &str, tier: Tier) -> Option<Vec<Unit>> {
                     .len(pick(4, 5))
                     .alarm(ACC | VAL | EXT | EMI | EMC | PSP | PFO | PEX | CHK | PAN | NOE)
                     .unit(),
+                e1("kmemo-lookahead-pairs", format!("every KmemoLook grammar (or_not / rewind / then / and_is / ignore_then over two tokens) with <= {} nodes x each single node memoized, vs the plain grammar", pick(7, 8)), {
+                    let mut out = vec![];
+                    for g in en::k_memo_look().upto(pick(7, 8)) {
+                        if !g.any_node(&|x| matches!(x, Rewind(_) | AndIs(..))) {
+                            continue;
+                        }
+                        for i in 0..g.size() as u32 {
+                            out.push(g.clone());
+                            out.push(en::decorate(&g, 1 << i, &wrap_memo));
+                        }
+                    }
+                    out
+                })
+                .alpha(&['a', 'b'], 3)
+                .probes(NOPROBE)
+                .pairs(PairMode::Exact)
+                .unit(),
                 rec_unit("leftrec", tier),
             ]
         }
@@ -442,6 +459,7 @@ pub fn units(prop: &str, tier: Tier) -> Option<Vec<Unit>> {
                     .unit(),
                 e1("kext-plain-vs-clone", "extended class <= 3 nodes: plain vs through Clone (differential)".into(), dup(en::k_ext().upto(3))).probes(NOPROBE).pairs(PairMode::Exact).clone_mode().unit(),
                 Unit::Custom { name: "histories".into(), run: Box::new(move |cx| eng_hist::run("histories", tier, cx)) },
+                Unit::Custom { name: "histories-static".into(), run: Box::new(move |cx| eng_hist::run("histories-static", tier, cx)) },
                 Unit::Custom { name: "threads".into(), run: Box::new(move |cx| eng_hist::run("threads", tier, cx)) },
             ]
         }
@@ -481,6 +499,7 @@ pub fn units(prop: &str, tier: Tier) -> Option<Vec<Unit>> {
                     .unit(),
                 class("kext-label-content", &en::k_ext(), pick(3, 4)).alarm(ACC | VAL | PSP | PEX | PCX | EMC | EMI).unit(),
                 class("klabel-deep-content", &en::k_label(), pick(5, 6)).alarm(ACC | VAL | PSP | PEX | PCX | EMC | EMI).unit(),
+                class("klabelctx-deep-content", &en::k_labelctx(), pick(7, 8)).alarm(ACC | VAL | PSP | PEX | PCX | EMC | EMI).unit(),
             ]
         }
         "C18" => {
@@ -499,6 +518,7 @@ pub fn units(prop: &str, tier: Tier) -> Option<Vec<Unit>> {
                 v.push(class(&format!("kext-{n}"), &en::k_ext(), pick(3, 4)).cfg(c).probes(NOPROBE).alarm(alarm).unit());
                 v.push(class(&format!("k01-{n}"), &en::k01(), pick(3, 3)).cfg(c).probes(NOPROBE).alarm(alarm).unit());
                 if n == "rich" {
+                    v.push(rec_unit("leftrec", tier));
                     v.push(Unit::Custom { name: "pull-budgets".into(), run: Box::new(move |cx| eng_inputs::run("pull-budgets", tier, cx)) });
                     v.push(Unit::Custom { name: "text-totality".into(), run: Box::new(move |cx| eng_text::run_totality("text-totality", if tier == Tier::Quick { 4 } else { 5 }, cx)) });
                 }
